@@ -94,7 +94,11 @@ pub trait BlsTimeCrypt:
             let len = uint_zigzag::Uint::try_from(&plaintext[..overhead])
                 .unwrap()
                 .0 as usize;
-            if len <= plaintext.len() - overhead {
+            // only the canonical (shortest) length prefix is what `seal` writes; accepting
+            // longer encodings of the same length would leave the prefix malleable
+            let canonical =
+                uint_zigzag::Uint::from(len).to_vec().as_slice() == &plaintext[..overhead];
+            if canonical && len <= plaintext.len() - overhead {
                 message = plaintext[overhead..overhead + len].to_vec();
             } else {
                 return CtOption::new(w.to_vec(), 0u8.into());
